@@ -166,3 +166,57 @@ def run(facts, rep):
         else:
             rep.violation('E24.lex-order', inst, 'cmp_lex compares %s, expected components 0..%d in increasing order, self.k against other.k' % (comps, want_n - 1), where=b.where())
     rep.floor('E24 cmp_lex implementations', n, 5)
+
+
+def check_index_bounds(facts, rep):
+    """X3 (C16, "lex and graded lex are total orders"): MultiDeg::cmp_lex compares the exponents over min_index ..= max_index
+    of both operands; the two bounds must be the extreme *keys* of the exponent map (min / max over the indices, or the
+    first / last key of the ordered map). A bound computed from another bound and the number of entries
+    (`min + len - 1`) is right only for a support without gaps: x2 and x2*x4 then compare Equal."""
+    import re
+    from symex import SymEx, show, strip
+    n = 0
+    for fn, good, what in (('min_index', ('min', 'first_key_value', 'first', 'next'), 'smallest'), ('max_index', ('max', 'last_key_value', 'last', 'next_back'), 'largest')):
+        b = facts.bodies.get('yui::types::poly::mdeg::MultiDeg::<I>::' + fn)
+        if b is None:
+            rep.indet('E24.X3: MultiDeg::%s not found' % fn)
+            continue
+        rep.saw(b)
+        inst = 'MultiDeg::%s|the %s key of the exponent map' % (fn, what)
+        vs = set()
+        for p in SymEx(b, havoc_loops=True, max_paths=500).run():
+            if p.end != 'return' or p.ret is None:
+                continue
+            s_ = re.sub(r'#(?:i\d+:)?\d+\.\d+', '', show(p.ret, -1000))
+            t = strip(p.ret)
+            names = []
+            by_site = {e.site: e for e in p.calls()}
+            while t[0] in ('call', 'field') and (t[0] == 'field' or t[2]):
+                if t[0] == 'field':
+                    t = strip(t[1])
+                    continue
+                names.append(t[1].split('::')[-1])
+                a0 = t[2][0]
+                if a0[0] == 'mref' and len(t) > 3 and t[3] in by_site and by_site[t[3]].pre:
+                    a0 = by_site[t[3]].pre[0]
+                t = strip(a0)
+            derived = re.match(r'^(map|and_then)\((min_index|max_index)\(arg1\), closure', s_)
+            if derived or (re.search(r'(Add|Sub)WithOverflow\(|\badd\(|\bsub\(', s_) and re.search(r'\b(len|ninds|count)\(', s_)):
+                vs.add(('arith', ('a function of %s' % derived.group(2)) if derived else s_[:90]))
+            elif t == ('arg', 1) and any(g in names for g in good) and not any(x in names for x in ('len', 'ninds', 'count')):
+                vs.add(('ok', [g for g in good if g in names][0]))
+            elif t == ('arg', 1) and any(g in names for g in (('max', 'last_key_value', 'last', 'next_back') if fn == 'min_index' else ('min', 'first_key_value', 'first'))):
+                vs.add(('other-end', '.'.join(reversed(names))[:60]))
+            else:
+                vs.add(('?', s_[:80]))
+        n += 1
+        if vs and all(v[0] == 'ok' for v in vs):
+            rep.ok('E24.X3-index-bounds', inst, sorted(vs)[0][1])
+        elif any(v[0] in ('arith', 'other-end') for v in vs) and not any(v[0] == '?' for v in vs):
+            v = [v for v in vs if v[0] in ('arith', 'other-end')][0]
+            rep.violation('E24.X3-index-bounds', inst,
+                          'MultiDeg::%s is computed as %s, not as the %s key: for a support with gaps (x2*x4) the range cmp_lex walks ends early, exponents beyond it are never compared and distinct monomials are Equal - the order is not total and lead_term depends on the iteration order of the term map' % (fn, v[1], what),
+                          where=b.where())
+        else:
+            rep.indet('E24.X3: MultiDeg::%s outside the recognised fragment: %s' % (fn, sorted(vs)))
+    rep.floor('E24.X3 index bounds of MultiDeg', n, 2)
